@@ -303,8 +303,8 @@ Section Verify.
     rewrite EU.
     assert (Lw1 : length (map2 (map2 (uh (p_gamma2 P))) wp h) = p_k P /\ Forall (fun p => length p = 256%nat) (map2 (map2 (uh (p_gamma2 P))) wp h)).
     { clear -Hwp Lh Fh. destruct Hwp as [Lw Fw]. revert h Lh Fh Lw. generalize (p_k P). induction Fw as [|p wp Hp Fw IH]; intros n h Lh Fh Lw.
-      - cbn in Lw. subst n. destruct h; [split; [reflexivity | constructor] | discriminate].
-      - destruct h as [|hp h]; [cbn in *; lia|]. cbn [length] in *. destruct n; [lia|]. inversion Fh; subst.
+      - cbn [length] in Lw. subst n. destruct h; [split; [reflexivity | constructor] | discriminate].
+      - destruct h as [|hp h]; [cbn [length] in *; lia|]. cbn [length] in *. destruct n; [lia|]. inversion Fh; subst.
         destruct (IH n h ltac:(lia) ltac:(assumption) ltac:(lia)) as [I1 I2]. cbn [map2 length]. split; [lia|].
         constructor; [|exact I2]. rewrite map2_length; destruct Hp as [Lp _]; lia. }
     destruct Lw1 as [Lw1 Fw1].
@@ -338,7 +338,7 @@ Section VerifyLayers.
 
   Lemma format_message_eq M ctx : (length ctx <= 255)%nat -> FIPS.format_message M ctx = formatMsg M ctx.
   Proof.
-    intros L. unfold FIPS.format_message, formatMsg. rewrite (IntegerToBytes_1 0) by lia.
+    intros L. unfold FIPS.format_message, formatMsg. change (FIPS.IntegerToBytes 0 1) with [0%N].
     rewrite byteN_IntegerToBytes. unfold byteN. rewrite N.mod_small by lia. reflexivity.
   Qed.
 
@@ -476,3 +476,239 @@ Section KeyGen.
     apply (skEncode_eq P FF); auto. apply (xl_len H HH).
   Qed.
 End KeyGen.
+
+(* ------------------------------------------------------------------ *)
+(* Algorithm 7                                                          *)
+(* ------------------------------------------------------------------ *)
+Lemma AddVector_signed_l n v w : cvec n w -> length v = n -> Forall (fun p => length p = 256%nat) v ->
+  FIPS.AddVector v w = vadd (map (map modq) v) w.
+Proof.
+  intros [Lw Fw] Lv Fv. unfold FIPS.AddVector, vadd. rewrite zip_with_map2.
+  rewrite <- (map_id w) at 2. rewrite (map2_map padd (map modq) (fun x => x)).
+  apply (map2_ext_F (fun p => length p = 256%nat) cpoly); auto.
+  intros a b La [Lb Cb]. unfold FIPS.AddPoly, padd. rewrite zip_with_map2.
+  rewrite <- (map_id b) at 2. rewrite (map2_map k_add modq (fun x => x)).
+  apply (map2_ext_F (fun _ => True) (fun x => 0 <= x < q)); [apply Forall_forall; auto | exact Cb |].
+  intros x y _ Hy. unfold modq. rewrite k_add_spec by (auto using mod_q_range). rewrite Zplus_mod_idemp_l. reflexivity.
+Qed.
+
+Lemma fold_add_sum p : forall r, fold_left Z.add p r = r + fold_right Z.add 0 p.
+Proof. induction p as [|x p IH]; intros r; cbn [fold_left fold_right]; [lia|]. rewrite IH. lia. Qed.
+
+Lemma vnumOnes_sum h : vnumOnes h = fold_right Z.add 0 (map (fold_right Z.add 0) h).
+Proof.
+  unfold vnumOnes.
+  assert (G : forall r, fold_left (fun r p => fold_left Z.add p r) h r = r + fold_right Z.add 0 (map (fold_right Z.add 0) h)).
+  { induction h as [|p h IH]; intros r; cbn [fold_left map fold_right]; [lia|]. rewrite IH, fold_add_sum. lia. }
+  rewrite G. lia.
+Qed.
+
+Lemma params_ok_g2b P : params_ok P -> beta P < p_gamma2 P /\ 0 < p_gamma2 P.
+Proof. intros [-> | [-> | ->]]; split; vm_compute; reflexivity. Qed.
+
+Lemma modpm_modq x : modq (FIPS.modpm x FIPS.q) = modq x.
+Proof. unfold modq. exact (cmod_cong x). Qed.
+
+Lemma map_map_ext_canon (f : Z -> Z) n v : cvec n v -> (forall x, 0 <= x < q -> f x = x) -> map (map f) v = v.
+Proof.
+  intros Hv E. rewrite <- (map_id v) at 2. apply map_ext_in. intros p Hp.
+  pose proof (cvec_canon n v Hv) as C. rewrite Forall_forall in C. specialize (C p Hp).
+  rewrite <- (map_id p) at 2. apply map_ext_in. intros x Hx. unfold canon in C. rewrite Forall_forall in C. auto.
+Qed.
+
+Lemma cvec_lengths n v : cvec n v -> length v = n /\ Forall (fun p => length p = 256%nat) v.
+Proof. intros [L F]. split; [exact L|]. eapply Forall_impl; [|exact F]. intros p [Lp _]. exact Lp. Qed.
+
+Section Sign.
+  Variables H G : bytes -> nat -> bytes.
+  Hypothesis HH : xof_laws H.
+  Hypothesis HG : xof_laws G.
+  Variable P : params.
+  Hypothesis HP : params_ok P.
+
+  Lemma Sign_loop_eq Ah s1h s2h t0h mu rhopp :
+    cmat (p_k P) (p_l P) Ah -> cvec (p_l P) s1h -> cvec (p_k P) s2h -> cvec (p_k P) t0h ->
+    forall rounds kappa,
+    signLoop H P rounds Ah s1h s2h t0h mu rhopp kappa =
+    FIPS.Sign_loop H (fips_of P) 1024 rounds Ah s1h s2h t0h mu rhopp kappa.
+  Proof.
+    intros HA Hs1 Hs2 Ht0.
+    pose proof (params_ok_facts P HP) as PF. pose proof (params_ok_ffacts P HP) as FF.
+    pose proof (params_ok_gb P HP) as GB. destruct (params_ok_g2b P HP) as [G2B G2P].
+    destruct PF as [Hgam Homega (G1 & G2 & G3) Heta (W1 & W2 & Hbeta) Htau] eqn:EPF.
+    set (g := p_gamma2 P) in *. set (k := p_k P) in *. set (l := p_l P) in *.
+    induction rounds as [|rounds IH]; intros kappa; [reflexivity|].
+    cbn [signLoop FIPS.Sign_loop]. unfold signAttempt. cbv zeta.
+    cbn [FIPS.gamma1 FIPS.gamma2 FIPS.k FIPS.l FIPS.beta FIPS.omega FIPS.lambda fips_of]. fold g k l.
+    destruct (ExpandMask_eq H HH P FF PF rhopp kappa) as [EY SY].
+    set (y := FIPS.ExpandMask H (fips_of P) rhopp kappa) in *.
+    assert (Ly : length y = l) by (unfold y, FIPS.ExpandMask; apply array_length).
+    assert (Fy : Forall (fun p => length p = 256%nat) y) by (eapply Forall_impl; [|exact SY]; intros p [Lp _]; exact Lp).
+    assert (Hy : cvec l (map (map modq) y)) by (apply cvec_modq; auto).
+    rewrite EY. rewrite (vNTT_eq y Fy).
+    rewrite (MatrixVectorNTT_eq k l Ah _ HA) by (apply cvec_vntt; exact Hy).
+    assert (Hw0 : cvec k (mmul Ah (vntt (map (map modq) y)))) by (apply (cvec_mmul _ l); [exact HA | apply cvec_vntt; exact Hy]).
+    rewrite (vNTT_inv_eq k _ Hw0).
+    set (w := vintt (mmul Ah (vntt (map (map modq) y)))).
+    assert (Hw : cvec k w) by (unfold w; apply cvec_vintt; exact Hw0).
+    rewrite (oseq_map_total _ (map (hb g)) canon) by (auto using phighBits_total; apply (cvec_canon k); exact Hw).
+    replace (map (map (FIPS.HighBits g)) w) with (map (map (hb g)) w).
+    2:{ apply map_ext_in. intros p Hp. apply map_ext_in. intros x Hx. apply HighBits_eq.
+        pose proof (cvec_canon k w Hw) as C. rewrite Forall_forall in C. specialize (C p Hp). unfold canon in C. rewrite Forall_forall in C. auto. }
+    destruct (cvec_lengths k w Hw) as [Lw Fw].
+    rewrite (w1Encode_eq P FF (map (map (hb g)) w))
+      by (first [rewrite map_length; exact Lw | apply Forall_map; eapply Forall_impl; [|exact Fw]; intros p Lp; rewrite map_length; exact Lp]).
+    destruct FF as [FE FZ FW FKL LAM] eqn:EFF. rewrite <- LAM.
+    set (ct := H (mu ++ w1Encode P (map (map (hb g)) w)) (ctLen P)).
+    rewrite (SampleInBall_eq H HH P ct Htau).
+    destruct (FIPS.SampleInBall H (fips_of P) 1024 ct) as [c|] eqn:EC; cbn [option_map FIPS.obind]; [|reflexivity].
+    destruct (SampleInBall_range _ _ _ _ _ EC) as [_ Lc].
+    assert (Hc : cpoly (map modq c)).
+    { split; [rewrite map_length; exact Lc|]. apply Forall_map. apply Forall_forall. intros x _. apply mod_q_range. }
+    rewrite (NTT_eq c Lc). set (ch := ntt (map modq c)). assert (Hch : cpoly ch) by (apply cpoly_ntt; exact Hc).
+    rewrite !(ScalarVectorNTT_eq l ch s1h Hch Hs1), !(ScalarVectorNTT_eq k ch s2h Hch Hs2), !(ScalarVectorNTT_eq k ch t0h Hch Ht0).
+    assert (H1 : cvec l (vscalarMul ch s1h)) by (apply cvec_vscalarMul; auto).
+    assert (H2 : cvec k (vscalarMul ch s2h)) by (apply cvec_vscalarMul; auto).
+    assert (H3 : cvec k (vscalarMul ch t0h)) by (apply cvec_vscalarMul; auto).
+    rewrite !(vNTT_inv_eq l _ H1), !(vNTT_inv_eq k _ H2), !(vNTT_inv_eq k _ H3).
+    set (cs1 := vintt (vscalarMul ch s1h)). set (cs2 := vintt (vscalarMul ch s2h)). set (ct0 := vintt (vscalarMul ch t0h)).
+    assert (Hcs1 : cvec l cs1) by (apply cvec_vintt; exact H1).
+    assert (Hcs2 : cvec k cs2) by (apply cvec_vintt; exact H2).
+    assert (Hct0 : cvec k ct0) by (apply cvec_vintt; exact H3).
+    rewrite (AddVector_signed_l l y cs1 Hcs1 Ly Fy).
+    set (z := vadd (map (map modq) y) cs1). assert (Hz : cvec l z) by (apply cvec_vadd; auto).
+    rewrite !(SubVector_eq k w cs2 Hw Hcs2).
+    set (u := vsub w cs2). assert (Hu : cvec k u) by (apply cvec_vsub; auto).
+    rewrite (oseq_map_total _ (map (lb g)) canon) by (auto using plowBits_total; apply (cvec_canon k); exact Hu).
+    rewrite W1, W2.
+    (* the two norm checks of line 23 *)
+    rewrite (Z.leb_antisym (FIPS.norm_vec z)), (Z.leb_antisym (FIPS.norm_vec (map (map (FIPS.LowBits g)) u))).
+    rewrite (norm_ltb_canon l z (gamma1 P - beta P) ltac:(lia) Hz).
+    destruct (cvec_lengths k u Hu) as [Lu Fu].
+    rewrite (norm_ltb (map (map (FIPS.LowBits g)) u) (g - beta P)) by
+      (first [lia | apply Forall_map; eapply Forall_impl; [|exact Fu]; intros p Lp; rewrite map_length; exact Lp]).
+    replace (map (map modq) (map (map (FIPS.LowBits g)) u)) with (map (map (lb g)) u).
+    2:{ rewrite map_map. apply map_ext_in. intros p Hp. rewrite map_map. apply map_ext_in. intros x Hx. apply LowBits_eq.
+        pose proof (cvec_canon k u Hu) as C. rewrite Forall_forall in C. specialize (C p Hp). unfold canon in C. rewrite Forall_forall in C. auto. }
+    rewrite <- negb_andb.
+    destruct (Z.ltb (vinfNorm z) (gamma1 P - beta P) && Z.ltb (vinfNorm (map (map (lb g)) u)) (g - beta P))%bool eqn:EN;
+      cbn [negb]; [|apply IH].
+    apply andb_true_iff in EN. destruct EN as [EN1 EN2]. apply Z.ltb_lt in EN1.
+    (* hint *)
+    rewrite (NegVector_eq k ct0 Hct0), (AddVector_eq k u ct0 Hu Hct0).
+    assert (Hn : cvec k (vneg ct0)) by (apply cvec_vneg; exact Hct0).
+    assert (Hr : cvec k (vadd u ct0)) by (apply cvec_vadd; auto).
+    rewrite (oseq_map2_total _ (map2 (mh g)) canon canon)
+      by (auto using pmakeHint_total; apply (cvec_canon k); auto).
+    replace (FIPS.zip_with (FIPS.zip_with (FIPS.MakeHint g)) (vneg ct0) (vadd u ct0)) with (map2 (map2 (mh g)) (vneg ct0) (vadd u ct0)).
+    2:{ change (FIPS.zip_with (FIPS.zip_with (FIPS.MakeHint g))) with (map2 (map2 (FIPS.MakeHint g))).
+        apply (map2_ext_F (fun _ => True) canon); [apply Forall_forall; auto | eapply cvec_canon; eauto |].
+        intros p r _ Cr. apply (map2_ext_F (fun _ => True) (fun x => 0 <= x < q)); [apply Forall_forall; auto | exact Cr |].
+        intros a b _ Hb. apply MakeHint_eq. exact Hb. }
+    destruct (hint_shape g k (vneg ct0) (vadd u ct0) Hn Hr) as [Lh Sh].
+    set (h := map2 (map2 (mh g)) (vneg ct0) (vadd u ct0)) in *.
+    rewrite <- vnumOnes_sum.
+    rewrite (Z.leb_antisym (FIPS.norm_vec ct0)), (Z.ltb_antisym (vnumOnes h)).
+    rewrite (norm_ltb_canon k ct0 g G2P Hct0). rewrite <- negb_andb.
+    destruct (Z.ltb (vinfNorm ct0) g && Z.leb (vnumOnes h) (Z.of_nat (p_omega P)))%bool eqn:EM; cbn [negb]; [|apply IH].
+    apply andb_true_iff in EM. destruct EM as [_ EM2]. apply Z.leb_le in EM2.
+    (* the encoding *)
+    f_equal. symmetry.
+    assert (Bh : Forall binary h) by (eapply Forall_impl; [|exact Sh]; intros p [Hb _]; exact Hb).
+    assert (Fh : Forall (fun p => length p = 256%nat) h) by (eapply Forall_impl; [|exact Sh]; intros p [_ Lp]; exact Lp).
+    rewrite (vnumOnes_weight h Bh) in EM2.
+    destruct (cvec_lengths l z Hz) as [Lz Fz].
+    assert (BZ : Forall (Forall (fun x => cabs x < gamma1 P - beta P)) z)
+      by (apply vinfNorm_lt_iff; [apply (cvec_canon l); exact Hz | lia | exact EN1]).
+    rewrite (sigEncode_eq P (mk_ffacts P FE FZ FW FKL LAM) (mk_pfacts P Hgam Homega (conj G1 (conj G2 G3)) Heta (conj W1 (conj W2 Hbeta)) Htau)).
+    - f_equal. rewrite map_map.
+      replace (map (fun p => map modq (map (fun x => FIPS.modpm x FIPS.q) p)) z) with (map (map (fun x => modq (FIPS.modpm x FIPS.q))) z)
+        by (apply map_ext; intros p; rewrite map_map; reflexivity).
+      apply (map_map_ext_canon _ l z Hz). intros x Hx. rewrite modpm_modq. apply Z.mod_small. exact Hx.
+    - unfold ct. apply (xl_len H HH).
+    - rewrite map_length. exact Lz.
+    - apply Forall_map. rewrite Forall_forall in *. intros p Hp. split; [rewrite map_length; apply Fz; exact Hp|].
+      apply Forall_map. specialize (BZ p Hp). eapply Forall_impl; [|exact BZ]. cbv beta. intros x Hx. unfold cabs in Hx.
+      change (cmod x q) with (FIPS.modpm x FIPS.q) in Hx. lia.
+    - exact Lh.
+    - exact Fh.
+    - lia.
+  Qed.
+End Sign.
+
+Lemma skDecode_shape P (FF : ffacts P) enc : length enc = secretKeyLength P ->
+  let '(rho, K, tr, s1, s2, t0) := FIPS.skDecode (fips_of P) enc in
+  (length s1 = p_l P /\ Forall (fun p => length p = 256%nat) s1) /\
+  (length s2 = p_k P /\ Forall (fun p => length p = 256%nat) s2) /\
+  (length t0 = p_k P /\ Forall (fun p => length p = 256%nat) t0).
+Proof.
+  intros L. destruct FF as [(E1 & E2 & E3 & E4 & E5) _ _ _ _].
+  destruct t1_width as (_ & _ & W3 & W4 & W5 & W6).
+  unfold FIPS.skDecode. cbn [FIPS.k FIPS.l FIPS.eta fips_of].
+  replace (2 * p_eta P) with (p_eta P + p_eta P) by lia. rewrite E1, W4, W5.
+  unfold secretKeyLength in L. set (we := (32 * p_etaBits P)%nat) in *.
+  destruct (map_BitUnpack_eq (p_eta P) (p_eta P) (p_etaBits P) enc 128 (p_l P) E2 E1 E4 E3 ltac:(fold we; lia)) as [_ U1].
+  destruct (map_BitUnpack_eq (p_eta P) (p_eta P) (p_etaBits P) enc (128 + p_l P * we) (p_k P) E2 E1 E4 E3 ltac:(fold we; lia)) as [_ U2].
+  destruct (map_BitUnpack_eq (4096 - 1) 4096 dBits enc (128 + p_l P * we + p_k P * we) (p_k P) ltac:(cbn; lia) W3
+              ltac:(unfold q; lia) ltac:(vm_compute; congruence) ltac:(fold we; lia)) as [_ U3].
+  fold we in U1, U2.
+  assert (T : forall B1 B2 v, sranges B1 B2 v -> Forall (fun p => length p = 256%nat) v).
+  { intros B1 B2 v R. eapply Forall_impl; [|exact R]. intros p [Lp _]. exact Lp. }
+  repeat split; try apply array_length; eapply T; eassumption.
+Qed.
+
+Section SignTop.
+  Variables H G : bytes -> nat -> bytes.
+  Hypothesis HH : xof_laws H.
+  Hypothesis HG : xof_laws G.
+  Variable P : params.
+  Hypothesis HP : params_ok P.
+
+  Theorem Sign_mu_eq skb sk rounds mu rnd : skDecode P skb = Some sk ->
+    signInternalWithMu G H P rounds sk mu rnd = FIPS.Sign_mu H G (fips_of P) 672 1024 rounds skb mu rnd /\
+    sk_tr sk = (let '(_, _, tr, _, _, _) := FIPS.skDecode (fips_of P) skb in tr).
+  Proof.
+    intros D. pose proof (params_ok_ffacts P HP) as FF.
+    pose proof (skDecode_length _ _ _ D) as L.
+    pose proof (skDecode_eq P FF skb L) as E. pose proof (skDecode_shape P FF skb L) as S.
+    unfold FIPS.Sign_mu.
+    destruct (FIPS.skDecode (fips_of P) skb) as [[[[[rho K] tr] s1] s2] t0].
+    destruct S as ((L1 & F1) & (L2 & F2) & (L3 & F3)).
+    assert (Esk : sk = mkSK rho K tr (map (map modq) s1) (map (map modq) s2) (map (map modq) t0)) by congruence.
+    subst sk. split; [|reflexivity].
+    unfold signInternalWithMu. cbn [sk_rho sk_K sk_s1 sk_s2 sk_t0].
+    rewrite (vNTT_eq s1 F1), (vNTT_eq s2 F2), (vNTT_eq t0 F3).
+    rewrite (ExpandA_eq G HG P rho).
+    destruct (FIPS.ExpandA G (fips_of P) 672 rho) as [Ah|] eqn:EA; cbn [obind FIPS.obind]; [|reflexivity].
+    assert (HA : cmat (p_k P) (p_l P) Ah) by (apply (expandA_cmat G P rho); rewrite ExpandA_eq by exact HG; exact EA).
+    apply (Sign_loop_eq H HH P HP); auto; apply cvec_vntt, cvec_modq; auto.
+  Qed.
+
+  Theorem Sign_internal_eq skb sk rounds Mp rnd : skDecode P skb = Some sk ->
+    signInternal G H P rounds sk Mp rnd = FIPS.Sign_internal H G (fips_of P) 672 1024 rounds skb Mp rnd.
+  Proof.
+    intros D. unfold signInternal, FIPS.Sign_internal, computeMu.
+    destruct (Sign_mu_eq skb sk rounds (H (sk_tr sk ++ Mp) 64%nat) rnd D) as [E1 E2].
+    rewrite E1, E2. destruct (FIPS.skDecode (fips_of P) skb) as [[[[[rho K] tr] s1] s2] t0]. reflexivity.
+  Qed.
+
+  Theorem Sign_eq skb sk rounds M ctx rnd : skDecode P skb = Some sk ->
+    sign G H P rounds sk M ctx rnd = FIPS.Sign H G (fips_of P) 672 1024 rounds skb M ctx rnd.
+  Proof.
+    intros D. unfold sign, FIPS.Sign. destruct (Nat.ltb 255 (length ctx)) eqn:E; [reflexivity|].
+    apply Nat.ltb_ge in E. rewrite (format_message_eq M ctx E). f_equal. apply Sign_internal_eq. exact D.
+  Qed.
+
+  (* the Tink signer of a key without output prefix *)
+  Theorem tinkSign_eq skb rounds data rnd : length skb = secretKeyLength P ->
+    tinkSign G H P rounds [] skb data rnd =
+    FIPS.Sign_internal H G (fips_of P) 672 1024 rounds skb (FIPS.format_message data []) rnd.
+  Proof.
+    intros L. pose proof (params_ok_ffacts P HP) as FF. unfold tinkSign.
+    pose proof (skDecode_eq P FF skb L) as E.
+    destruct (FIPS.skDecode (fips_of P) skb) as [[[[[rho K] tr] s1] s2] t0] eqn:ED.
+    rewrite E. cbn [obind]. rewrite (Sign_internal_eq skb _ rounds _ rnd E).
+    rewrite format_message_eq by (cbn; lia).
+    destruct (FIPS.Sign_internal H G (fips_of P) 672 1024 rounds skb (formatMsg data []) rnd); reflexivity.
+  Qed.
+End SignTop.
